@@ -49,6 +49,10 @@ def parts(tier):
     # the pairing through the non-default (non-lazy) Miller-loop step functions: reduced workload
     P += [dict(part="BN_P256", cfg="asan256ppb", shards=1 if q else 2),
           dict(part="SM9_P256", cfg="asan256ppb", shards=1 if q else 2)]
+    # affine curve arithmetic (EP_ADD == BASIC; also basic dispatch of the extension and pairing layers): the line
+    # functions and sparse products of the affine paths, D-type (BN_P256) and M-type (SM9_P256) twists
+    P += [dict(part="BN_P256", cfg="asan256x", shards=1 if q else 2),
+          dict(part="SM9_P256", cfg="asan256x", shards=1 if q else 2)]
     if not q:
         # k = 12 families at other field sizes (the unchanged tree is silent there); the k = 8/16/18/24 families need
         # pp_map_*_k8/k16/k18/k24 with ep4/ep3/ep8 models and are not covered
@@ -215,8 +219,10 @@ def run(ctx, part):
                                "dispatch": {m: R.target(m) for m in ("pc_map", "pc_map_sim")},
                                "measured_nonresidues": {str(d): repr(v) for d, v in W.M.nr.items()},
                                "measurement_problems": [repr(q) for q in W.M.problems]})
-    light = ctx.cfg == "asan256ppb"      # alternative Miller-loop dispatch: optimal ate entry points, reduced volume
-    singles = [f for f in SINGLE if R.has(f) and (not light or f in ("pc_map", "pp_map_oatep_k12"))]
+    light = ctx.cfg in ("asan256ppb", "asan256x")      # alternative dispatch: reduced volume
+    affine_build = ctx.cfg == "asan256x"
+    singles = [f for f in SINGLE if R.has(f) and (not light or f in ("pc_map", "pp_map_oatep_k12")
+                                                 or (affine_build and f == "pp_map_weilp_k12"))]
     sims = [f for f in SIM if R.has(f) and (not light or f in ("pc_map_sim", "pp_map_sim_oatep_k12"))]
     ctx.note("miller_step_dispatch_" + ctx.cfg, {m: R.target(m) for m in ("pp_dbl_k12", "pp_add_k12") if R.has(m)})
 
@@ -533,6 +539,63 @@ def run(ctx, part):
     for it in range(ctx.n(10, 120) if ctx.shard < 2 else ctx.n(3, 40)):
         step_case("dbl")
         step_case("add")
+
+    # ---------------------------------------------------------------- sparse products on line-shaped operands
+    # b is a line produced by the step function the build selects (pp_dbl_k12 / pp_add_k12: exactly the operands of
+    # fp12_mul_dxs in the Miller loop of this (twist type, EP_ADD) path), or random values in the coefficient slots that
+    # line occupies (every slot of the shape non-zero); fp12_mul_dxs, _basic and _lazyr must equal the model product.
+    da, db, dc = R.fpx_new(12), R.fpx_new(12), R.fpx_new(12)
+    dxs_fns = [f for f in ("fp12_mul_dxs", "fp12_mul_dxs_basic", "fp12_mul_dxs_lazyr") if R.has(f)]
+
+    def dxs_case(kind, synthetic):
+        stepfn = "pp_dbl_k12" if kind == "dbl" else "pp_add_k12"
+        if not R.has(stepfn):
+            return
+        A = W.E2.mul(rng.randrange(2, r - 1), W.G2)
+        B = W.E2.mul(rng.randrange(2, r - 1), W.G2)
+        Pm = W.E1.mul(rng.randrange(1, r), W.G1)
+        key = "fp12_mul_dxs|line-%s|%s" % (kind, "synthetic" if synthetic else "library-line")
+        try:
+            if not ctx.begin(key, {"set": part, "step": R.target(stepfn)}, budget=120):
+                return
+            W.put1(Pp, Pm, "aff")
+            W.put2(Q1, B, "aff")
+            W.put2(T1, A, "aff")
+            R.fpx_put(l1, [0] * 12)
+            res = R.call(stepfn, l1, T1, T1 if kind == "dbl" else Q1, Pp)
+            if not ctx.check(not res.caught, "%s|unexpected-error%s" % (key, tag)):
+                return
+            b, _ = R.fpx_get(l1, 12)
+            slots = [i for i, x in enumerate(b) if x]
+            ctx.note("line_slots_%s_%s_%s" % (ctx.cfg, part, kind), ",".join(str(i) for i in slots))
+            if synthetic:
+                c = rng.randrange(3)
+                b = [(rng.randrange(1, W.p) if c < 2 else rng.choice([1, W.p - 1, (W.p + 1) // 2])) if i in slots else 0
+                     for i in range(12)]
+            a = F12.flatten(F12.rand(rng))
+            exp = F12.flatten(F12.mul(F12.unflatten(a), F12.unflatten(b)))
+            for fn in dxs_fns:
+                for alias in (0, 1):
+                    R.fpx_put(da, a)
+                    R.fpx_put(db, b)
+                    ctypes.memset(dc, R.poison, szgt)
+                    out = da if alias else dc
+                    rr = R.call(fn, out, da, db)
+                    if not ctx.check(not rr.caught, "%s|%s,a%d|unexpected-error%s" % (key, fn, alias, tag)):
+                        continue
+                    got, canon = R.fpx_get(out, 12)
+                    ctx.check(got == exp, "%s|%s,a%d|value%s" % (key, fn, alias, tag),
+                              {"slots": slots, "wrong": [i for i in range(12) if got[i] != exp[i]]})
+                    ctx.check(canon, "%s|%s,a%d|canonical%s" % (key, fn, alias, tag))
+        except MonitorViolation as e:
+            ctx.fail("%s|%s" % (key, e.kind), e.detail)
+        finally:
+            ctx.end()
+
+    for it in range(ctx.n(8, 100) if (ctx.shard < 2 or light) else ctx.n(2, 30)):
+        for kind in ("dbl", "add"):
+            dxs_case(kind, False)
+            dxs_case(kind, True)
 
     # ---------------------------------------------------------------- final exponentiation
     if R.has("pp_exp_k12"):
